@@ -18,5 +18,8 @@ CONSTANTS
   KEYV <- MCH_KEYV
   NameCaseSigned = TRUE
   CacheRule = "asis"
-INVARIANTS TypeOK C06_SecureOnlyGenuine C06_SecureOnlyInWindow C06_TtlBound C06_FreshWithinRequirement
+  CfgMin = 0
+  CfgMax = 99
+  Deviation = "none"
+INVARIANTS TypeOK C06_SecureOnlyGenuine C06_SecureOnlyInWindow C06_TtlBound C06_StrayNeverSecure C06_FreshWithinRequirement
 CHECK_DEADLOCK FALSE
